@@ -57,6 +57,11 @@ func buildC16(tier string, seed int64) *Family {
 		rx("replace with "+g+" groups", "replace", "replace('#S1', '"+pat+"', '#S3')", map[string]string{"pattern": pat})
 		rx("matches with pattern "+pat, "matches", "matches('#S1', '"+pat+"')", map[string]string{"pattern": pat})
 	}
+	rx("matches with a parenthesised pattern that does not compile", "matches", "matches('#S1', ('['))", map[string]string{"pattern": "["})
+	rx("replace with a doubly parenthesised pattern that does not compile", "replace", "replace('#S1', (('(')), '#S3')", map[string]string{"pattern": "("})
+	rx("matches with a parenthesised pattern", "matches", "matches('#S1', ('(a)'))", map[string]string{"pattern": "(a)"})
+	// the lookup the engine uses (getRegexp) over sequences of requests
+	insts = append(insts, &vm.Instance{ID: "getRegexp: sequences of three requests over compiling and non-compiling patterns", Harness: "H_getregexp", Params: map[string]string{"calls": "3"}})
 	rx("matches with a pattern that does not compile", "matches", "matches('#S1', '(')", map[string]string{"pattern": "("})
 	rx("replace with a pattern that does not compile", "replace", "replace('#S1', '[', '#S3')", map[string]string{"pattern": "["})
 	// patterns and subjects taken from the document (concrete pool values, so Go's regexp is
